@@ -9,6 +9,12 @@
     only by the environment ops `hostSeen/hostGone/capture/releaseCapture`, so that every
     real execution (where the handler's own `DHCPv4Update` calls and the packet parser also
     touch the session) is an interleaving of model ops.
+    `hosts` is the session as the handler finds it when the message arrives (after `Session.Parse` of the frame);
+    the one place where the handler itself changes the session before deciding — `DHCPv4Update` at the top of the
+    rebooting / rebinding branch — comes AFTER the `takenByOther` test in the code (fix 1742c73), so every test of
+    the model reads the pre-state `hosts`.
+  * naming after that fix: the library's `inUse(lease, ip)` is `inUse t c ip || takenByOther s mac ip` here
+    (`inUse` below is its lease-table half), the library's `takenByOther` is `takenByOther` here.
   * `step` returns the LIST of admissible outcomes (singleton wherever the Go code is
     deterministic; the code no longer depends on map iteration order after the `inUse` fix,
     `freeLeases` visits every entry).
@@ -182,6 +188,16 @@ def findOrCreate (s : State) (c : Cid) (mac : MAC) : Lease :=
 def inUse (t : Table) (c : Cid) (ip : Option IP) : Bool :=
   t.any (fun e => e.1 != c && e.2.state != .free && e.2.ip == ip)
 
+/-- `takenByOther` : the session tracks the address for a MAC other than the lease's
+    (`FindIP` of the invalid address finds nothing) -/
+def takenByOther (s : State) (mac : MAC) (ip : Option IP) : Bool :=
+  match ip with
+  | some a =>
+    match sessionKnows s a with
+    | some m => m != mac
+    | none => false
+  | none => false
+
 /-- static part of `available` -/
 def usable (cfg : Cfg) (sub : SubId) (ip : IP) : Bool :=
   let n := cfg.sub sub
@@ -262,7 +278,8 @@ def discover (cfg : Cfg) (s : State) (now : Nat) (m : Msg) : State × List Reply
     | .allocated => { l0 with offer := if l0.expiry < now then none else l0.ip }
     | .discover => if l0.xid != m.xid then { l0 with offer := none } else l0
     | .free => l0
-  let l1 : Lease := if inUse s.table c la.offer then { la with offer := none } else la
+  let l1 : Lease :=
+    if inUse s.table c la.offer || takenByOther s la.mac la.offer then { la with offer := none } else la
   let fin (s : State) (l : Lease) : State × List Reply :=
     let l' := { l with state := .discover, xid := m.xid }
     ({ s with table := setLease s.table c l' }, [mkReply cfg m .offer l' l'.offer])
@@ -308,17 +325,21 @@ def otherServer (l : Lease) : Lease :=
 /-- the NAK test of the selecting branch (first disjunct: the `StateFree` fix) -/
 def selBad (s : State) (m : Msg) (l : Lease) : Bool :=
   l.state == .free || l.mac != m.chaddr
-    || (l.state == .discover && (l.xid != m.xid || l.offer != some (reqIPOf m) || inUse s.table (clientId m) l.offer))
-    || (l.state == .allocated && l.ip != some (reqIPOf m))
+    || (l.state == .discover && (l.xid != m.xid || l.offer != some (reqIPOf m) || inUse s.table (clientId m) l.offer
+          || takenByOther s l.mac l.offer))
+    || (l.state == .allocated && (l.ip != some (reqIPOf m) || takenByOther s l.mac l.ip))
 
 /-- the NAK test of the renewing branch -/
-def renewBad (now : Nat) (m : Msg) (l : Lease) : Bool :=
+def renewBad (s : State) (now : Nat) (m : Msg) (l : Lease) : Bool :=
   l.state != .allocated || l.ip != some (reqIPOf m) || l.mac != m.chaddr || decide (l.expiry < now)
+    || takenByOther s l.mac l.ip
 
-/-- the NAK test of the rebooting / rebinding branch -/
-def rebootBad (subnet : Subnet) (m : Msg) (l : Lease) : Bool :=
+/-- the NAK test of the rebooting / rebinding branch (`taken` is computed from the session as it is
+    BEFORE `DHCPv4Update` records the requested address for the requester) -/
+def rebootBad (s : State) (subnet : Subnet) (m : Msg) (l : Lease) : Bool :=
   l.state != .allocated || l.ip != some (reqIPOf m) || l.mac != m.chaddr
     || !(match l.ip with | some ip => subnet.contains ip | none => false)
+    || takenByOther s l.mac (some (reqIPOf m))
 
 /-- the main switch of `handleRequest` (order of the tests as in the code) -/
 def verdict (cfg : Cfg) (s : State) (now : Nat) (m : Msg) (l : Lease) : Verdict :=
@@ -330,10 +351,10 @@ def verdict (cfg : Cfg) (s : State) (now : Nat) (m : Msg) (l : Lease) : Verdict 
     else if selBad s m l then .nak subnet.server l
     else .ack
   | .renewing =>
-    if renewBad now m l then .nak subnet.server l else .ack
+    if renewBad s now m l then .nak subnet.server l else .ack
   | _ =>
     if l.state == .free && attacks cfg s m.chaddr then .nak cfg.net1.gw l
-    else if rebootBad subnet m l then .nak subnet.server l
+    else if rebootBad s subnet m l then .nak subnet.server l
     else .ack
 
 def Verdict.kept : Verdict → Option Lease
